@@ -100,6 +100,7 @@ def parsePubKey (b : Bytes) : Option Pt :=
   let fmt := fmt0 &&& (~~~ (0x1 : UInt8))
   if b.length == Gen.k_pubKeyBytesLenUncompressed then
     if fmt.toNat != Gen.k_pubkeyUncompressed && fmt.toNat != Gen.k_pubkeyHybrid then none else
+    if fmt.toNat == Gen.k_pubkeyUncompressed && ybit then none else    -- prefix 0x05 (fix dbf0f4d)
     let x := beNat ((b.drop 1).take 32)
     let y := beNat (b.drop 33)
     if fmt.toNat == Gen.k_pubkeyHybrid && ybit != (y % 2 == 1) then none else
